@@ -93,7 +93,13 @@ impl World for Chain {
     fn run(&self, ctx: &mut Ctx) {
         let seed = ctx.tape.choose(u64::MAX);
         let rt = chainkit::runtime(seed);
-        rt.block_on(world(ctx));
+        // the node's wall clock is simulated (set by the dry-run clients, see oracles::c45)
+        simkit::clock::enable(1_000);
+        let r = std::panic::catch_unwind(std::panic::AssertUnwindSafe(|| rt.block_on(world(ctx))));
+        simkit::clock::disable();
+        if let Err(e) = r {
+            std::panic::resume_unwind(e);
+        }
     }
 }
 
